@@ -241,7 +241,8 @@ var scenarios = []scenario{
 	}},
 	{name: "close-in-flight", workers: 1, pin: rightPin, retries: 2, wantNew: true, run: func(w *world, tok *worker.WorkerToken, sc *scenario) {
 		w.expect(sc, w.sign(tok, 0) == nil, "first request failed")
-		w.m.SetDelay("SignInit", 1500*time.Millisecond)
+		// (long enough that no bounded wait for "requests in flight" would be mistaken for a hang)
+		w.m.SetDelay("SignInit", 7*time.Second)
 		done := make(chan error, 1)
 		go func() { done <- w.sign(tok, 1) }()
 		waitFor(5*time.Second, func() bool {
